@@ -301,10 +301,10 @@ def ob_psk_native():
                 yield {"M": M, "phaseOffset": off}
 
     def check(case):
-        if case["M"] > 1024 and case["phaseOffset"] not in (0.0, 0.1):
+        if (not (case["M"] <= 1024)) and case["phaseOffset"] not in (0.0, 0.1):
             return None
         m = PSK(case["M"], case["phaseOffset"])
-        if case["M"] <= 1024:
+        if (not (case["M"] > 1024)):
             bad = _psk_native_gray_violations(m.symbols)
         else:
             # O(M) version: neighbours on the circle by angle
